@@ -578,6 +578,10 @@ def main():
     path = os.path.join(OUT_DIR, "Generated.v")
     old = open(path, encoding="utf-8").read() if os.path.exists(path) else None
     changed = old != text
+    if "--check" in sys.argv:
+        # report only: is the file on disk what the working tree translates to?  (nothing is written)
+        print(json.dumps({"same": not changed, "failures": failures}))
+        return 0
     if changed:
         tmp = path + ".tmp.%d" % os.getpid()
         with open(tmp, "w", encoding="utf-8") as f:
